@@ -56,6 +56,12 @@ type Policy struct {
 	// HoldFirstWrite: deliver nothing in this direction until the sending application's first Write has
 	// returned (handshake output and first payload then arrive coalesced in one segment)
 	HoldFirstWrite bool `json:"hold_first_write"`
+	// Window > 0: the sending endpoint's network accepts only this many unsent bytes (its Write blocks beyond).
+	// StallAt > 0: after this many bytes of the direction have been forwarded, the network stops forwarding it until
+	// the OTHER direction has delivered everything written so far (checked and logged as a Quiesce of that direction):
+	// a writer blocked by back-pressure must not keep its own endpoint from reading.
+	Window  int `json:"window"`
+	StallAt int `json:"stall_at"`
 }
 
 // Script is one session.
@@ -77,16 +83,17 @@ type Maker func(raw net.Conn) (net.Conn, error)
 const waitLimit = 20 * time.Second
 
 type side struct {
-	name    string // "c" | "s"
-	dirOut  string // direction this side writes: c2s | s2c
-	raw     *wire.Conn
-	app     net.Conn
-	writes  []int
-	wdone   int64 // bytes whose Write returned
-	deliv   int64 // bytes this side's reader has received (of the OTHER direction)
-	rdEnded int32 // the reader of this side has ended (its Read returned an error)
-	firstWr chan struct{}
-	once    sync.Once
+	name      string // "c" | "s"
+	dirOut    string // direction this side writes: c2s | s2c
+	raw       *wire.Conn
+	app       net.Conn
+	writes    []int
+	wdone     int64 // bytes whose Write returned
+	deliv     int64 // bytes this side's reader has received (of the OTHER direction)
+	rdEnded   int32 // the reader of this side has ended (its Read returned an error)
+	wFinished int32 // this side's writer has performed all of its writes
+	firstWr   chan struct{}
+	once      sync.Once
 }
 
 // Result tells the caller how far the session got.
@@ -102,6 +109,12 @@ func Run(w *vt.Writer, mkClient, mkServer Maker, sc *Script, after func(l *wire.
 	l := wire.NewLink(false, 0)
 	cl := &side{name: "c", dirOut: "c2s", raw: l.A, writes: sc.CW, firstWr: make(chan struct{})}
 	sv := &side{name: "s", dirOut: "s2c", raw: l.B, writes: sc.SW, firstWr: make(chan struct{})}
+	if sc.C2S.Window > 0 {
+		l.A.SetWindow(sc.C2S.Window)
+	}
+	if sc.S2C.Window > 0 {
+		l.B.SetWindow(sc.S2C.Window)
+	}
 	stop := make(chan struct{})
 	var pumps sync.WaitGroup
 	var pumpingA, pumpingB int32 // a pump currently holds taken-but-undelivered bytes
@@ -179,7 +192,29 @@ func Run(w *vt.Writer, mkClient, mkServer Maker, sc *Script, after func(l *wire.
 				}
 			}
 		}
+		forwarded := 0
+		stalled := false
 		for {
+			if p.StallAt > 0 && !stalled && forwarded >= p.StallAt {
+				stalled = true
+				// wait until the sending endpoint's writer is blocked on its window, then until the OTHER direction
+				// (towards that endpoint) has delivered everything that was written
+				dl := time.Now().Add(waitLimit / 2)
+				for time.Now().Before(dl) && src.raw.State().BlockedWriters == 0 {
+					time.Sleep(time.Millisecond)
+				}
+				dl = time.Now().Add(waitLimit / 2)
+				for time.Now().Before(dl) {
+					if atomic.LoadInt32(&dst.wFinished) == 1 && atomic.LoadInt64(&src.deliv) == atomic.LoadInt64(&dst.wdone) {
+						break
+					}
+					time.Sleep(time.Millisecond)
+				}
+				if src.raw.State().BlockedWriters > 0 { // only meaningful if the writer really is held by back-pressure
+					w.Emit(vt.Ev{"event": "Quiesce", "d": dst.dirOut, "delivered": atomic.LoadInt64(&src.deliv), "wdone": atomic.LoadInt64(&dst.wdone),
+						"note": "while the receiving endpoint's own writer is blocked by back-pressure"})
+				}
+			}
 			// wait for bytes
 			for src.raw.Pending() == 0 {
 				select {
@@ -232,6 +267,7 @@ func Run(w *vt.Writer, mkClient, mkServer Maker, sc *Script, after func(l *wire.
 					}
 				}
 				dst.raw.Deliver(buf[:k])
+				forwarded += k
 				buf = buf[k:]
 			}
 			atomic.StoreInt32(pumping, 0)
@@ -274,6 +310,7 @@ func Run(w *vt.Writer, mkClient, mkServer Maker, sc *Script, after func(l *wire.
 			Fill(sd.dirOut, off, buf)
 			w.Emit(vt.Ev{"event": "WriteCall", "d": sd.dirOut, "n": n})
 			ret, err := sd.app.Write(buf)
+			scribble(buf) // an io.Writer must not retain its argument: the application reuses its buffer
 			ev := vt.Ev{"event": "WriteRet", "d": sd.dirOut, "n": n, "ret": ret, "err": ""}
 			if err != nil {
 				ev["err"] = err.Error()
@@ -292,6 +329,7 @@ func Run(w *vt.Writer, mkClient, mkServer Maker, sc *Script, after func(l *wire.
 			}
 		}
 		sd.once.Do(func() { close(sd.firstWr) })
+		atomic.StoreInt32(&sd.wFinished, 1)
 	}
 	var writers sync.WaitGroup
 	var readers sync.WaitGroup
@@ -364,6 +402,7 @@ func Run(w *vt.Writer, mkClient, mkServer Maker, sc *Script, after func(l *wire.
 					Fill("s2c", 0, buf)
 					w.Emit(vt.Ev{"event": "WriteCall", "d": "s2c", "n": n})
 					ret, err := sv.app.Write(buf)
+					scribble(buf)
 					ev := vt.Ev{"event": "WriteRet", "d": "s2c", "n": n, "ret": ret, "err": ""}
 					if err != nil {
 						ev["err"] = err.Error()
@@ -450,6 +489,7 @@ func Run(w *vt.Writer, mkClient, mkServer Maker, sc *Script, after func(l *wire.
 			Fill(sd.dirOut, *off, buf)
 			w.Emit(vt.Ev{"event": "WriteCall", "d": sd.dirOut, "n": n})
 			ret, err := sd.app.Write(buf)
+			scribble(buf) // an io.Writer must not retain its argument: the application reuses its buffer
 			ev := vt.Ev{"event": "WriteRet", "d": sd.dirOut, "n": n, "ret": ret, "err": ""}
 			if err != nil {
 				ev["err"] = err.Error()
@@ -552,4 +592,10 @@ func Wrap(rw interface {
 	Write([]byte) (int, error)
 }, raw net.Conn) net.Conn {
 	return &rwConn{Conn: raw, rw: rw}
+}
+
+func scribble(b []byte) {
+	for i := range b {
+		b[i] = 0xEE
+	}
 }
